@@ -9,7 +9,7 @@ from .. import core, tree
 
 MOD = "mc.props.c12"
 MAXK = [None]   # bound on the size of stop / filtered-out subsets (None: all subsets)
-NAMES = ["n0", 'q"x', "b\\", "a b", "é", '6"-6\\"', "n0", '\\"', "x;y", "", "100%", "%s", "%%d"]
+NAMES = ["n0", 'q"x', "b\\", "a b", "é", '6"-6\\"', "n0", '\\"', "x;y", "", "100%", "%s", "%%d", "C:\\new", "a\\l\\r", "t\\\\n"]
 KF = "KF-C12-edge-to-stopped-child"
 
 
@@ -490,7 +490,7 @@ def run(tier):
     jobs = [(MOD, "job", {"items": [it], "custom": True, "histories": True}) for it in items[::-1]]
     if tier == "thorough":
         jobs += [(MOD, "job", {"items": [(s, k % 9)], "custom": False, "histories": False, "maxk": 2}) for k, s in enumerate(tree.plane_trees(nmax + 1))]
-    core.run_pool(jobs + [("mc.capacity", "job", {"pid": "C12"}), ("mc.positional", "job", {"pid": "C12"})], 0, into=t)
+    core.run_pool(jobs + [("mc.capacity", "job", {"pid": "C12"}), ("mc.positional", "job", {"pid": "C12"}), ("mc.numbers", "job", {"pid": "C12"})], 0, into=t)
     core.run_pool([(MOD, "job", {"items": c, "custom": False, "histories": False})
                    for c in core.chunks([(s, 1) for s in tree.shapes_upto(3)], core.NPROC)], 1, into=t)
     known = core.load_known_findings("C12")
@@ -506,5 +506,5 @@ def run(tier):
         "bounds": {"max_nodes": nmax, "inputs": len(items)},
     }
     return {"tally": t, "coverage": cov, "known": known,
-            "guards": ("positional_calls", "capacity_checks", "nontrivial", "custom_function_exports", "history_runs"),
+            "guards": ("unusual_number_calls", "positional_calls", "capacity_checks", "nontrivial", "custom_function_exports", "history_runs"),
             "assumptions": ["bounded sizes and name alphabet", "edge order is not fixed by the statement: edges are compared as a multiset"]}
